@@ -205,7 +205,7 @@ def generate_model_code_py(
         ],
         sized=False,
         model_fn=model_fn,
-        variables_template="    {} = variables",
+        variables_template="    [{}] = variables",
         assignment_template="    {k}: float = {v}",
         sympy_inline_fn=sympy_to_inline_py,
         return_template="    return {}",
